@@ -411,11 +411,61 @@ def same_content_other_name(ctx):
                     shutil.rmtree(d, ignore_errors=True)
 
 
+def builder_arguments(ctx):
+    """The builder route (create_survey with the JSON of a workbook): its id_string and title arguments are the form's id and title, whatever the
+    settings sheet said; without them the sheet's values stand; the other settings are untouched either way."""
+    from pyxform.builder import create_survey
+    from pyxform.xls2json import workbook_to_json
+    from pyxform.xls2json_backends import md_to_dict
+    from .. import xf
+    k = 0
+    for sheet_id in (None, "sheet_id"):
+        for sheet_title in (None, "Sheet title"):
+            for arg_id in (None, "arg_id"):
+                for arg_title in (None, "Arg title"):
+                    k += 1
+                    if not ctx.mine(k):
+                        continue
+                    f = gen.simple_form([("text", "q1", {"label": "Q"})])
+                    f.settings["version"] = "v42"
+                    f.settings["style"] = "pages"
+                    if sheet_id:
+                        f.settings["form_id"] = sheet_id
+                    if sheet_title:
+                        f.settings["form_title"] = sheet_title
+                    ctx.ctr("builder_argument_cases")
+                    ctx.case(sig=f"builder-args|{sheet_id}|{sheet_title}|{arg_id}|{arg_title}")
+                    wit = common.witness(f, klass="builder-args", args={"id_string": arg_id, "title": arg_title})
+                    try:
+                        from pyxform.xls2json_backends import get_xlsform
+                        js = workbook_to_json(workbook_dict=get_xlsform(xlsform=render.to_md(f.to_sheets()), file_type=".md"), form_name="data", fallback_form_name="stemname", warnings=[])
+                        kw = {}
+                        if arg_id:
+                            kw["id_string"] = arg_id
+                        if arg_title:
+                            kw["title"] = arg_title
+                        sv = create_survey(name_of_main_section="main", sections={"main": js}, **kw)
+                        p = xf.Parsed(sv.to_xml(validate=False, pretty_print=False))
+                    except Exception as e:  # noqa: BLE001
+                        ctx.viol("builder-args:raised", f"{type(e).__name__}: {e}"[:300], wit)
+                        continue
+                    want_id = arg_id or sheet_id or "stemname"
+                    want_title = arg_title or sheet_title or (sheet_id or "stemname")
+                    got = (p.primary.get("id"), p.title.text or "", p.primary.get("version"), p.body.get("class"))
+                    if got[0] != want_id:
+                        ctx.viol("builder-args:id", f"create_survey(id_string={arg_id!r}) with sheet form_id {sheet_id!r}: id {got[0]!r}, expected {want_id!r}", wit)
+                    if got[1] != want_title:
+                        ctx.viol("builder-args:title", f"create_survey(title={arg_title!r}, id_string={arg_id!r}) with sheet title {sheet_title!r} / id {sheet_id!r}: title {got[1]!r}, expected {want_title!r}", wit)
+                    if got[2:] != ("v42", "pages"):
+                        ctx.viol("builder-args:other-settings", f"version/style {got[2:]}", wit)
+
+
 def run_shard(ctx):
     if ctx.shard == 0:
         locale_children(ctx)
     thread_pass(ctx)
     same_content_other_name(ctx)
+    builder_arguments(ctx)
     pl = plan(ctx.tier, ctx.seed)
     for i in range(pl["n"]):
         if not ctx.mine(i):
@@ -443,6 +493,9 @@ def replay(w):
             return
         if wit.get("klass") == "names":
             same_content_other_name(ctx)
+            return
+        if wit.get("klass") == "builder-args":
+            builder_arguments(ctx)
             return
         i = wit.get("i", 0)
         if wit.get("klass") == "threads" or i >= 50000:
